@@ -146,3 +146,47 @@ Theorem C06_react_unfold : forall c idn s a raw ti st,
   react_tail c idn s a (fst (react_vals a raw ti)) (snd (react_vals a raw ti)) st.
 Proof. exact react_core_unfold. Qed.
 Print Assumptions C06_react_unfold.
+
+(** after the command-line phase every entry is labelled CommandLine *)
+Theorem C06_cmdline_labelled : forall fuel' c toks st0 st_c st1,
+  mt_args (mt st0) = [] ->
+  cmdline_phase fuel' c toks st0 = ROk st_c -> resolve_pending c st_c = ROk st1 ->
+  all_cl (mt st1).
+Proof. exact cmdline_phase_all_cl. Qed.
+Print Assumptions C06_cmdline_labelled.
+
+(** the reported value source names the origin of the values *)
+Theorem C06_source_honest : forall fuel' c toks st0 st,
+  ids_distinct c -> mt_args (mt st0) = [] ->
+  get_matches_with (S fuel') c toks st0 = ROk st ->
+  exists st_c st1,
+    cmdline_phase fuel' c toks st0 = ROk st_c /\ resolve_pending c st_c = ROk st1
+    /\ forall a e, In a (c_args c) -> fm_get (a_id a) (mt_args (mt st)) = Some e ->
+       match m_source e with
+       | Some SCmdLine => fm_get (a_id a) (mt_args (mt st1)) = Some e
+       | Some SEnv => fm_get (a_id a) (mt_args (mt st1)) = None
+                      /\ exists v vs, a_env a = Some v /\ delimit c a [v] None = Some vs /\ m_raw e = [vs]
+       | Some SDefault => fm_get (a_id a) (mt_args (mt st1)) = None /\ a_env a = None
+       | None => False
+       end.
+Proof. exact source_honest. Qed.
+Print Assumptions C06_source_honest.
+
+(** a command-line occurrence of a Set/Append argument stores what [react_vals] selected *)
+Theorem C06_cmdline_occurrence : forall c idn a raw ti st st' pr,
+  find_group c (a_id a) = None ->
+  a_get_action a = ASet \/ a_get_action a = AAppend ->
+  react_core c idn SCmdLine a raw ti st = ROk (st', pr) ->
+  exists e vs, fm_get (a_id a) (mt_args (mt st')) = Some e /\ m_source e = Some SCmdLine
+    /\ delimit c a (fst (react_vals a raw ti)) (snd (react_vals a raw ti)) = Some vs
+    /\ last (m_raw e) [] = vs.
+Proof. exact react_cmdline_values. Qed.
+Print Assumptions C06_cmdline_occurrence.
+
+(** DESIGN 7-P: conditional defaults depend on the definition order (a default of an earlier
+    argument triggers the rule of a later one, not vice versa) *)
+Theorem C06_conditional_default_order_dependent :
+  entry_summary (get_matches_with 2 (ex_cmd [ex_a; ex_b]) [] ps_new) [98] = Some (Some SDefault, [[[120]]])
+  /\ entry_summary (get_matches_with 2 (ex_cmd [ex_b; ex_a]) [] ps_new) [98] = None.
+Proof. exact (conj ex_default_triggers_later_rule ex_default_does_not_trigger_earlier_rule). Qed.
+Print Assumptions C06_conditional_default_order_dependent.
